@@ -135,13 +135,14 @@ def _is_err(v):
 
 
 class Evaluator:
-    def __init__(self, prog, inline_prefixes=("svgdx::",), max_depth=4, opaque=(), presets=None, type_alias=None, watch=(), name_case=None, transparent=(), iflet=None):
+    def __init__(self, prog, inline_prefixes=("svgdx::",), max_depth=4, opaque=(), presets=None, type_alias=None, watch=(), name_case=None, transparent=(), iflet=None, absent=()):
         self.prog = prog
         self.opaque = set(opaque)
         self.presets = presets or {}  # type -> value, for enum-typed selector locals (case specialisation)
         self.type_alias = type_alias or {}  # type -> symbolic object name for locals of that type whose value is unknown
         self.watch = set(watch)  # method / function names whose evaluated argument lists are recorded
         self.calls = []
+        self.absent = set(absent)  # attribute names assumed absent (get_attr gives None); all others are assumed present
         self.iflet = iflet  # "then" / "else": branch taken by every `if let` whose scrutinee the domain cannot decide
         self.name_case = name_case  # element name assumed for matches over `self.name.as_str()`
         self.transparent = set(transparent)  # local functions that return their (single) argument unchanged for our purposes (fstr)
@@ -209,6 +210,66 @@ class Evaluator:
         elif p in ("tstruct", "struct"):
             for q in pat.get("pats", []):
                 self._bind(q, None, env, counter)
+
+    def _match_pat(self, pat, val, env):
+        """does `val` match `pat`?  True / False when decidable (binding the pattern's variables), None otherwise"""
+        p = pat.get("p")
+        if p == "wild":
+            return True
+        if p == "bind":
+            env[pat["name"]] = val
+            return True if not pat.get("sub") else self._match_pat(pat["sub"], val, env)
+        if p == "ref":
+            return self._match_pat(pat["sub"], val, env)
+        if p == "or":
+            res = [self._match_pat(q, val, env) for q in pat["pats"]]
+            if any(r is True for r in res):
+                return True
+            return False if all(r is False for r in res) else None
+        known = val is not None and not is_form(val)
+        if p == "tuple":
+            if known and val[0] == "tup" and len(val[1]) == len(pat["pats"]):
+                res = [self._match_pat(q, v, env) for q, v in zip(pat["pats"], val[1])]
+                if any(r is False for r in res):
+                    return False
+                return True if all(r is True for r in res) else None
+            for q in pat["pats"]:
+                self._match_pat(q, None, env)
+            return None
+        if p in ("tstruct", "path", "struct"):
+            name = (pat.get("res") or {}).get("path", "").split("::")[-1]
+            subs = pat.get("pats", [])
+            if name in ("Some", "Ok") and len(subs) == 1:
+                if known and val[0] == "some":
+                    return self._match_pat(subs[0], val[1], env)
+                if known and val[0] in ("none", "err"):
+                    return False
+                self._match_pat(subs[0], None, env)
+                return None
+            if name == "None":
+                if known and val[0] == "none":
+                    return True
+                if known and val[0] == "some":
+                    return False
+                return None
+            if known and val[0] == "variant":
+                if val[1] != name:
+                    return False
+                i = 0
+                for q in subs:
+                    i += 1
+                    if q.get("p") == "bind":
+                        env[q["name"]] = ("obj", f"{val[1]}.{i}")
+                return True
+            for q in subs:
+                self._match_pat(q, None, env)
+            return None
+        if p == "lit":
+            lit = pat.get("lit")
+            if known and val[0] == "str" and isinstance(lit, dict) and "str" in lit:
+                return val[1] == lit["str"]
+            return None
+        return None
 
     def _bind_some(self, pat, val, env):
         """bind an `if let` pattern: Some(p) / Ok(p) unwrap a known payload, tuples distribute"""
@@ -355,10 +416,25 @@ class Evaluator:
         if k == "If":
             env_t = dict(env)
             undecided_let = False
+            decided = []
             for lc in hirq.exprs(n["cond"], "LetCond") if isinstance(n.get("cond"), dict) else []:
                 iv = self.eval(lc["init"], env_t, st) if isinstance(lc.get("init"), dict) else None
-                self._bind_some(lc["pat"], iv, env_t)
-                undecided_let = True
+                probe = dict(env_t)
+                m = self._match_pat(lc["pat"], iv, probe)
+                decided.append(m)
+                if m is True:
+                    env_t.update(probe)
+                else:
+                    self._bind_some(lc["pat"], iv, env_t)
+                    undecided_let = undecided_let or m is None
+            if decided and n["cond"].get("k") == "LetCond":
+                if all(m is True for m in decided):
+                    r = self.eval(n["then"], env_t, st)
+                    for name in list(env):
+                        env[name] = env_t.get(name)
+                    return r
+                if any(m is False for m in decided):
+                    return self.eval(n["else"], env, st) if n.get("else") else ("tup", [])
             if undecided_let and self.iflet in ("then", "else"):
                 if self.iflet == "then":
                     r = self.eval(n["then"], env_t, st)
@@ -517,6 +593,16 @@ class Evaluator:
             if chosen is not None:
                 return self.eval(chosen["body"], env, st)
         sc = self.eval(n["scrut"], env, st)
+        if sc is not None and not is_form(sc) and sc[0] in ("tup", "some", "none", "str"):
+            # structural matching: the first arm that definitely matches, provided all earlier ones definitely do not
+            for arm in n["arms"]:
+                probe = dict(env)
+                m = self._match_pat(arm["pat"], sc, probe)
+                if m is True and not arm.get("guard"):
+                    env.update(probe)
+                    return self.eval(arm["body"], env, st)
+                if m is not False:
+                    break
         if self.name_case is not None and n["scrut"].get("k") == "Tup":
             # (param, self.name.as_str()) style scrutinee: components that are known strings select literally
             comps = []
@@ -620,14 +706,18 @@ class Evaluator:
         if name in self.watch:
             self.calls.append(dict(name=name, recv=recv, args=args, line=n.get("line")))
         if name in ("get", "get_attr", "pop", "pop_attr") and len(args) == 1 and args[0] is not None and not is_form(args[0]) and args[0][0] == "str" and ("AttrMap" in rty or "SvgElement" in rty):
-            # reading an attribute: the value is the symbol @name (the attribute is assumed present)
-            return ("some", ("obj", "@" + args[0][1]))
+            # reading an attribute: the value is the symbol @name (the attribute is assumed present unless listed absent)
+            if args[0][1] in self.absent:
+                return ("none",)
+            return ("some", ("obj", "@" + args[0][1].replace("-", "_")))
         if name in TRANSPARENT:
             return recv
         if name in ("to_string", "to_owned", "as_str") and recv is not None and not is_form(recv) and recv[0] == "str":
             return recv
         if name in ("unwrap_or", "unwrap_or_else", "unwrap", "expect", "unwrap_or_default") and recv is not None and not is_form(recv) and recv[0] == "some":
             return recv[1]
+        if name == "unwrap_or" and recv is not None and not is_form(recv) and recv[0] == "none" and len(args) == 1:
+            return args[0]
         if rty in ("f32", "f64") and name in ATOM_METHODS:
             if is_form(recv) and all(is_form(a) for a in args):
                 return atom(name, [recv] + args)
@@ -863,6 +953,8 @@ def ref(x):
             return ("none",)
         if x == "?":
             return ("any",)
+        if len(x) >= 2 and x[0] == "'" and x[-1] == "'":
+            return ("str", x[1:-1])
         return RefParser(x).parse()
     if isinstance(x, list):
         return ("tup", [ref(y) for y in x])
